@@ -490,3 +490,140 @@ def run_c18(tier):
     vac["assumed_contracts"] = sorted(set(assumed))
     vac["files"] = len(jobs) + len(hjobs)
     return obs, ["cargo +nightly rustc -p palette --lib -- -Zunpretty=expanded ; verus .build/verus/soa_<type>.rs --output-json --time (%d files)" % (len(jobs) + len(hjobs))], vac
+
+
+# ---------------------------------------------------------------------------------------------------------------
+# C04: length / capacity arithmetic of the component-buffer casts (cast/array.rs), for ALL lengths
+# ---------------------------------------------------------------------------------------------------------------
+# The slice is mechanical: from the body of each function only (a) the `if <guard> { return Err(..) }` statements and
+# (b) the `let length = ..` / `let capacity = ..` statements are kept, and the length (and capacity) argument of the
+# raw constructor becomes the result. Everything else (the layout asserts, pointer casts, ManuallyDrop, the unsafe
+# constructor call itself) is dropped - the memory side of these functions is engine K's obligation on the unsliced
+# code. Token substitution: values.len() -> len, values.capacity() -> cap, T::Array::LENGTH -> n,
+# core::mem::size_of::<T>() -> size_t (with size_t == n * size_item assumed, as the function's own assert guarantees).
+C04_FUNCS = {
+    # name: (kind, has capacity)
+    "into_component_slice": ("mul", False), "into_component_slice_mut": ("mul", False),
+    "try_from_component_slice": ("div", False), "try_from_component_slice_mut": ("div", False),
+    "into_component_vec": ("mul", True), "try_from_component_vec": ("div", True),
+    "try_from_component_slice_box": ("guard", False),
+}
+C04_SUBST = [(r"values\s*\.\s*len\s*\(\s*\)", "len"), (r"values\s*\.\s*capacity\s*\(\s*\)", "cap"), (r"T\s*::\s*Array\s*::\s*LENGTH", "n"),
+             (r"<\s*T\s*::\s*Array\s+as\s+ArrayExt\s*>\s*::\s*LENGTH", "n"),
+             (r"(?:core|std)\s*::\s*mem\s*::\s*size_of\s*::\s*<\s*T\s*>\s*\(\s*\)", "size_t"),
+             (r"(?:core|std)\s*::\s*mem\s*::\s*size_of\s*::\s*<\s*T\s*::\s*Array\s*>\s*\(\s*\)", "size_t")]
+
+
+def c04_slice(name, body, kind, has_cap):
+    """-> (verus fn text, problem)"""
+    def sub(e):
+        for pat, rep in C04_SUBST: e = re.sub(pat, rep, e)
+        return norm(e)
+    guards = [sub(m.group(1)) for m in re.finditer(r"\bif\s+([^{}]+?)\s*\{\s*return\s+Err\s*\(", body)]
+    lets = [(m.group(1), sub(m.group(2))) for m in re.finditer(r"\blet\s+(?:mut\s+)?(length|capacity)\s*=\s*([^;]+);", body)]
+    ctor = re.search(r"from_raw_parts(?:_mut)?\s*\(\s*[^,]+,\s*(\w+)\s*(?:,\s*(\w+)\s*)?,?\s*\)", body)
+    leftovers = " ".join(guards + [e for _, e in lets])
+    if re.search(r"\bvalues\b|\bT\b|::", leftovers):
+        return None, "the sliced statements of %s mention something outside the substitution table: %s" % (name, leftovers)
+    L = []
+    if kind == "guard":
+        if not guards: return None, "no rejection guard found in %s" % name
+        L.append("fn %s(len: usize, n: usize) -> (r: Result<(), ()>)\n    requires n > 0,\n    ensures r.is_err() <==> len %% n != 0,\n{" % name)
+        for g in guards: L.append("    if %s { return Err(()); }" % g)
+        L.append("    Ok(())\n}")
+        return "\n".join(L), None
+    if ctor is None or ctor.group(1) != "length" or (has_cap and ctor.group(2) != "capacity"):
+        return None, "raw constructor call of %s not recognised (length%s argument)" % (name, "/capacity" if has_cap else "")
+    names = [n for n, _ in lets]
+    if "length" not in names or (has_cap and "capacity" not in names):
+        return None, "length/capacity statement of %s not found" % name
+    params = "len: usize, cap: usize, n: usize, size_t: usize, size_item: usize" if has_cap else "len: usize, n: usize, size_t: usize, size_item: usize"
+    res = "(usize, usize)" if has_cap else "usize"
+    common_req = ["n > 0", "size_item > 0", "size_t == n * size_item"]
+    if kind == "mul":
+        # an allocation never exceeds isize::MAX bytes: len * size_of::<T>() <= isize::MAX (Rust's allocation invariant)
+        req = common_req + ["len * size_t <= isize::MAX"] + (["cap * size_t <= isize::MAX", "len <= cap"] if has_cap else [])
+        ens = (["r.0 == len * n", "r.1 == cap * n", "r.0 * size_item == len * size_t", "r.1 * size_item == cap * size_t", "r.0 <= r.1"] if has_cap
+               else ["r == len * n", "r * size_item == len * size_t"])
+        L.append("fn %s(%s) -> (r: %s)\n    requires %s,\n    ensures %s,\n{" % (name, params, res, ", ".join(req), ", ".join(ens)))
+        L.append("    proof { c04_mul_bounds(len as int, n as int, size_item as int); %s }" % ("c04_mul_bounds(cap as int, n as int, size_item as int); c04_mono(len as int, cap as int, n as int);" if has_cap else ""))
+        for nme, e in lets: L.append("    let %s = %s;" % (nme, e))
+        L.append("    proof { c04_assoc(len as int, n as int, size_item as int); %s }" % ("c04_assoc(cap as int, n as int, size_item as int);" if has_cap else ""))
+        L.append("    (length, capacity)\n}" if has_cap else "    length\n}")
+    else:
+        if not guards: return None, "no rejection guard found in %s" % name
+        req = common_req + (["len <= cap"] if has_cap else [])
+        if has_cap:
+            ens = ["r.is_err() <==> (len % n != 0 || cap % n != 0)", "r.is_ok() ==> r.unwrap().0 * n == len && r.unwrap().1 * n == cap && r.unwrap().0 <= r.unwrap().1",
+                   "r.is_ok() ==> r.unwrap().0 * size_t == len * size_item && r.unwrap().1 * size_t == cap * size_item"]
+        else:
+            ens = ["r.is_err() <==> len % n != 0", "r.is_ok() ==> r.unwrap() * n == len", "r.is_ok() ==> r.unwrap() * size_t == len * size_item"]
+        L.append("fn %s(%s) -> (r: Result<%s, ()>)\n    requires %s,\n    ensures %s,\n{" % (name, params, res, ", ".join(req), ",\n        ".join(ens)))
+        for g in guards: L.append("    if %s { return Err(()); }" % g)
+        for nme, e in lets: L.append("    let %s = %s;" % (nme, e))
+        L.append("    proof { c04_div_exact(len as int, n as int, length as int, size_item as int); %s }" % ("c04_div_exact(cap as int, n as int, capacity as int, size_item as int); c04_div_mono(len as int, cap as int, n as int);" if has_cap else ""))
+        L.append("    Ok((length, capacity))\n}" if has_cap else "    Ok(length)\n}")
+    return "\n".join(L), None
+
+
+C04_LEMMAS = """
+proof fn c04_mul_bounds(a: int, n: int, s: int) requires a >= 0, n > 0, s > 0, a * (n * s) <= isize::MAX ensures 0 <= a * n <= usize::MAX
+{ assert(a * (n * s) == (a * n) * s) by (nonlinear_arith); assert(a * n <= (a * n) * s) by (nonlinear_arith) requires a >= 0, n > 0, s > 0; assert(a * n >= 0) by (nonlinear_arith) requires a >= 0, n > 0; }
+proof fn c04_assoc(a: int, n: int, s: int) ensures (a * n) * s == a * (n * s) { assert((a * n) * s == a * (n * s)) by (nonlinear_arith); }
+proof fn c04_mono(a: int, b: int, n: int) requires 0 <= a <= b, n > 0 ensures a * n <= b * n { assert(a * n <= b * n) by (nonlinear_arith) requires 0 <= a <= b, n > 0; }
+proof fn c04_div_exact(a: int, n: int, q: int, s: int) requires a >= 0, n > 0, a % n == 0, q == a / n ensures q * n == a, q * (n * s) == a * s
+{ assert(a == n * (a / n) + a % n) by (nonlinear_arith) requires n > 0; assert(q * n == a) by (nonlinear_arith) requires a == n * q; assert(q * (n * s) == (q * n) * s) by (nonlinear_arith); }
+proof fn c04_div_mono(a: int, b: int, n: int) requires 0 <= a <= b, n > 0 ensures a / n <= b / n
+{ assert(a / n <= b / n) by (nonlinear_arith) requires 0 <= a <= b, n > 0; }
+"""
+
+
+def run_c04(tier):
+    src_path = os.path.join(REPO, "palette/src/cast/array.rs")
+    try:
+        src = strip_comments(open(src_path).read())
+    except Exception as ex:
+        o = Ob("V.cast.source", "verus", "unbounded", "cast/array.rs", "source readable"); o.detail = "cannot read %s: %s" % (src_path, ex)
+        return [o], [], {}
+    os.makedirs(VDIR, exist_ok=True)
+    ok, msg = canary()
+    if ok is not True:
+        o = Ob("V.canary", "verus", "unbounded", "verifier", "assert(false) must be rejected"); o.detail = "vacuity guard failed: %s" % msg
+        return [o], [], {}
+    obs, parts, labels = [], [], []
+    for name, (kind, has_cap) in C04_FUNCS.items():
+        o = Ob("V.cast.%s.length_arithmetic" % name, "verus", "unbounded", "cast::%s [cast/array.rs] (length/capacity slice)" % name,
+               {"mul": "for all lengths (and capacities): the result length is exactly len * N, no overflow under Rust's allocation bound, and the byte sizes of the two views agree",
+                "div": "for all lengths (and capacities): Err exactly when the length (or, for Vec, the capacity) is not a multiple of N; Ok length * N == len (capacity likewise) and the byte sizes of the two views agree",
+                "guard": "for all lengths: Err exactly when the length is not a multiple of N"}[kind])
+        o.backend = "Verus 0.2026.09.13 (z3, nonlinear_arith lemmas)"
+        m = re.search(r"\bpub\s+fn\s+%s\s*<" % name, src)
+        if not m:
+            o.detail = "lost anchor: cast::%s not found (undecided)" % name; obs.append(o); continue
+        j = src.find("{", m.end())
+        # the signature may contain a where clause; the body is the first brace block after the parameter list's closing paren
+        e = match_brace(src, j)
+        txt, prob = c04_slice(name, src[j:e + 1], kind, has_cap)
+        if txt is None:
+            o.detail = "slice not applicable to the current body (undecided): %s" % prob; obs.append(o); continue
+        parts.append(txt); labels.append((name, o)); obs.append(o)
+    if parts:
+        path = os.path.join(VDIR, "cast_lengths.rs")
+        open(path, "w").write("// GENERATED by lib/vengine.py: length/capacity slices of /repo/palette/src/cast/array.rs\nuse vstd::prelude::*;\nverus! {\n"
+                              + C04_LEMMAS + "\n" + "\n\n".join(parts) + "\n} // verus!\nfn main() {}\n")
+        j, err, dt = run_verus(path)
+        res = fn_results(j) if j else {}
+        vr = (j or {}).get("verification-results", {})
+        hard = j is None or vr.get("encountered-vir-error") or (vr.get("encountered-error") and not res)
+        for name, o in labels:
+            o.extra = {"verus_file": path}
+            r = None
+            for k, v in res.items():
+                if k.endswith("::" + name): r = v
+            if hard: o.detail = "Verus could not process the slice (undecided): " + (err or "")[-800:]
+            elif r is None: o.detail = "no verdict for this function in Verus' output"
+            elif r[0]: o.status = DISCHARGED; o.time = r[1]
+            else:
+                o.status = FAILED; o.no_input = True; o.time = r[1]
+                o.detail = "Verus rejects the length contract of the sliced body:\n" + (err or "")[-1500:]
+    return obs, ["verus .build/verus/cast_lengths.rs --output-json --time"], {"canary_rejected": True, "sliced_functions": [n for n, _ in labels]}
